@@ -37,6 +37,8 @@ pub struct Family {
     pub uncontrolled: Option<(usize, usize)>,
     /// Seconds part of the simulation start time for this family.
     pub base_secs: i64,
+    /// Relative share of the time budget (1.0 = a full share).
+    pub weight: f64,
 }
 
 impl Family {
@@ -52,6 +54,7 @@ impl Family {
             hang_is_violation: false,
             uncontrolled: None,
             base_secs: 1000,
+            weight: 1.0,
         }
     }
     /// Start the simulations of this family at `secs` s + 999_999_998 ns.
@@ -187,12 +190,14 @@ pub fn run_families(property: &str, tier: &str, fams: Vec<Family>, budget_s: f64
     // (real-thread families keep their place at the front: they are cheap and time-sensitive).
     let mut order: Vec<&Family> = fams.iter().collect();
     order.sort_by_key(|f| if f.uncontrolled.is_some() { 0 } else { f.scenarios.len() });
+    let weights: Vec<f64> = order.iter().map(|f| f.weight.max(0.05)).collect();
+    let _ = n_fams;
     for (fi, fam) in order.into_iter().enumerate() {
         let tf = Instant::now();
         // Each family gets an equal share of what is left of the budget.
         let remaining = (budget_s - t0.elapsed().as_secs_f64()).max(1.0);
         set_base_secs(fam.base_secs);
-        let fam_budget = remaining / (n_fams - fi) as f64;
+        let fam_budget = remaining * weights[fi] / weights[fi..].iter().sum::<f64>();
         let next = AtomicUsize::new(0);
         let stop = AtomicBool::new(false);
         let stats = Mutex::new(FamStats::default());
